@@ -1,2 +1,5 @@
 pub mod agent;
 pub mod dlrt;
+pub mod dltask;
+pub mod vote;
+pub mod store;
